@@ -31,8 +31,8 @@ META = {
     "ready": True,
     "category": "proof",
     "technique": "Lean 4 theorems about (1) the winders algorithm of parameters.scm transcribed as list functions and (2) a flat-stack VM model of vm.rs with lazily captured continuation marks (Open/Closed), the two reinstatement paths and the handler search, for all operation sequences; the decisions the models depend on are re-read from parameters.scm / vm.rs on every run; + differential execution of generated continuation programs (trace of side effects, values): real engine (default, STEEL_JIT=false, collection at every allocation) vs an executable CEK reference semantics with R7RS winders (extents compared by identity)",
-    "level_text": "Proved (SteelVerif/C08/Props.lean, no bound on stack depth, number of frames, captures or operations): wind_exactly_once (a transfer between winders A'++C and B'++C runs `after` of A' innermost-first then `before` of B' outermost-first, each once, for the comparison parameters.scm uses now — read from the source: a return to equal? breaks the decide obligation code_compares_extents_by_identity; _partial under DistinctExtentsDiffer + decide'd counterexample for equal?), wind_normal_and_error_once (dynamic-wind's push/pop/handler mechanism = `before … after` exactly once per entered body in nesting order, on return and on error), wrapper_eq_doWind; lazy_capture_eq_eager (for every sequence of frame push/pop, changes of the running frame, store writes, captures, invocations and error unwinds, a successful invocation of a captured continuation — mark closed or still open, either reference-count branch — reinstates exactly the operand stack, frames, ip and sp an eager full copy at capture would), invoke_restores_pending_work (… and leaves the store as it is now), invoke_twice_same (multi-shot), handler_nearest (innermost handler frame, stack cut at its base, error pushed; full statement for code without the dummy frame, _partial + decide'd witness for the code with it), invoke_never_panics (with the repaired closing discipline every captured continuation stays invocable; decide'd witnesses that the current discipline panics). The VM model is my transcription of vm.rs at the level of frames/marks, instructions are abstract; reset/shift, the JIT and nested interpreter instances are not modelled in Lean. They, the whole pipeline and dynamic-wind/handlers end to end are covered by the differential run against the reference semantics.",
-    "level_note": "Trusted: Lean kernel, the transcription of vm.rs / parameters.scm into Model.lean / Wind.lean (tied by translate/c08_code.py for five decisions, by the debug assertions of the engine build — it keeps the eager copy next to every open mark and asserts equality — and by the differential run), C08/Spec.lean as the reading of the property (deviations: handler result is the value of the handler expression; a top-level form is the extent of its continuations), harness/driver/comparison, generator coverage. Open findings K08b (reset/shift/with-handler share one meta-continuation cell), K08c, K08d (small fixes proposed), K08e (native higher-order callbacks) are attributed by class predicate + agreement with the faithful variant of the semantics (K08b) or the specific failure (K08c/d/e: mechanism below the source level, modelled in Model.lean by Cfg flags). pop_count bookkeeping, threads, continuations crossing make_thread are not covered.",
+    "level_text": "Proved (SteelVerif/C08/Props.lean, 22 audited theorems, no bound on stack depth, frames, captures or operations): wind_exactly_once (a transfer between winders A'++C and B'++C runs `after` of A' innermost-first then `before` of B' outermost-first, each once, nothing else, for the comparison parameters.scm uses — read from the source on every run: a return to equal? breaks the decide obligation code_compares_extents_by_identity; wind_exactly_once_partial under DistinctExtentsDiffer + decide'd counterexample for equal?), wind_normal_and_error_once (dynamic-wind's push / pop / handler mechanism = `before … after` exactly once per entered body in nesting order, on return and on error), wrapper_eq_doWind, wind_events_nodup; lazy_capture_eq_eager (for every sequence of frame push/pop, changes of the running frame, store writes, captures, invocations and error unwinds, a successful invocation of a captured continuation — mark closed or still open, either reference-count branch — reinstates exactly the operand stack, frames, ip and sp that an eager full copy at capture would), invoke_restores_pending_work (… frames, locals and argument temporaries of the capture; the store is the current one), invoke_twice_same (multi-shot), handler_nearest / handler_nearest_code (innermost handler frame, stack cut at its base, error pushed, frames below untouched; _partial + decide'd witness for code that pushes a dummy frame), invoke_never_panics / _code (every captured continuation stays invocable under the mark-closing discipline the code has now — code_mark_discipline, read from vm.rs; decide'd witnesses that the former discipline panicked). The VM model is my transcription of vm.rs at the level of frames and marks with abstract instructions; reset/shift, the JIT and nested interpreter instances are not modelled in Lean: they, the whole pipeline and dynamic-wind/handlers end to end are covered by the differential run against the reference semantics (20 000 programs x 3 configurations in the thorough tier).",
+    "level_note": "Trusted: Lean kernel, the transcription of vm.rs / parameters.scm into Model.lean / Wind.lean (tied by translate/c08_code.py for five decisions, by the debug assertions of the engine build — it keeps the eager copy next to every open mark and asserts equality — and by the differential run), C08/Spec.lean as the reading of the property (deviations: handler result is the value of the handler expression; a top-level form is the extent of its continuations), harness/driver/comparison, generator coverage. Open findings: K08b (reset/shift/with-handler share one meta-continuation cell and use the primitive call/cc) and K08g (dynamic-wind's handler, small fix proposed) are attributed by class predicate (from S's run) AND exact agreement of the real engine with the faithful variant (parameters.scm + stdlib.scm transcribed into the object language, `c08driver impl`); K08e (continuations captured/invoked inside callbacks of native higher-order built-ins: nested interpreter instance, below the source level) by a syntactic class predicate. Fixed during the build: D12/K08a, K08c, K08d, K08f (regression programs in findings/, run first in every tier). pop_count bookkeeping, threads, continuations crossing make_thread are not covered.",
 }
 
 SEP = "\n;;;===\n"
